@@ -149,7 +149,7 @@ CLAUSES = {
     "C01": {"first apply (no previous record): configuration nodes present, scalars carry its value": "theorem (SMD.C01, when present in the audit) + judge",
             "general case (configuration survives pruning)": "correspondence + judge configuration-takes-effect after every successful apply"},
     "C02": {"adds/changes only configuration fields; removes only beneath abandoned fields; others keep values": "correspondence + judges (frame conditions on Compare(live, result))",
-            "disjoint configurations commute": "not decided separately (covered only through correspondence of both orders when generated)"},
+            "disjoint configurations commute": "judge disjoint-configurations-commute: two managers owning nothing yet apply structurally disjoint plain configurations in both orders from the current state of a history (reading R13): same outcome kind, objects equal up to member order, equal ownership"},
     "C03": {"a manager's first apply removes nothing": "theorem first_apply_is_merge / apply_with_empty_record_is_merge + judge",
             "abandoned unowned fields are removed, leave the record": "correspondence + judge abandoned-field-removed (reading R3)"},
     "C04": {"force never conflicts; unforced success = forced; conflict non-empty, other managers only": "theorems",
